@@ -11,7 +11,7 @@ T = {
     "C02": ("Sym operation-log monitor, structural per-lane comparison; native-type per-lane reference sweeps",
             "Each operator/reduction/constructor of all 13 vector kinds is executed on free symbols; output lane i must be exactly Op(x_i, y_i) (no cross-lane operand), reductions are compared as polynomials/left folds, order-dependent ones on exact rationals and native ints/floats lane by lane.",
             "closures passed to map/apply are observed per call; evaluation order is recorded but only exactly-once and lane mapping are asserted"),
-    "C03": ("Tag data-movement monitor: row-major, column-major and abstract model run side by side over random API programs; Miri on the unsafe array conversions",
+    "C03": ("Tag data-movement monitor: row-major, column-major and abstract model run side by side over random API programs; Miri and valgrind memcheck on the unsafe array conversions and slice views with a heap-owning element",
             "Random programs over the layout-agnostic matrix API are executed on a row-major value, a column-major value and an abstract model; after every step all three are compared through the raw public representation; flat views, Display and GL flag included.",
             "the abstract model is written from the documentation; element identity is carried by opaque tokens so any misplaced element is seen regardless of values"),
     "C04": ("exact-rational (Q) and GF(p) monitors with registered angle tokens; f64 sampling with derived tolerance",
